@@ -63,6 +63,14 @@ func scenarioC04(r *Run) {
 		// patience): the request simply takes longer
 		r.W.P4.Faults.SlowDen, r.W.P4.Faults.SlowBy = 20, []time.Duration{1200 * time.Millisecond, 1600 * time.Millisecond}[r.Ch.Choose(2, "slow-by")]
 	}
+	if r.Ch.Choose(3, "small-arrays") == 1 {
+		// few meter / counter cells: a cell is soon handed out again, also to the
+		// next incarnation of the agent after a kill
+		small := int64(6 + 2*r.Ch.Choose(4, "arrays"))
+		for _, n := range []string{mApp, mSess, cPre, cPost} {
+			r.W.P4.Resize(n, small)
+		}
+	}
 	npeers := 1 + r.Ch.Choose(2, "npeers")
 	for i := 0; i < npeers; i++ {
 		r.AddPeer()
@@ -84,6 +92,7 @@ func scenarioC04(r *Run) {
 	g := NewGen(r)
 	g.PlainQER = true
 	g.UP4 = true
+	g.Rateless = true
 	g.DrawAvoid()
 	check := func(ctx, cause string) { r.CheckUP4Image("C04", ctx, cause, o) }
 	runHistory(r, g, histCfg{prop: "C04", maxOps: 3 + r.Ch.Choose(12, "nops"), allowKill: true, checkImage: check, up4: true,
